@@ -19,7 +19,7 @@ func init() {
 		Decided: "(b) every read of the first packet lands at the current offset and the offset handed on (to the next read or to the caller) is that offset plus that read's own count, on every path including error and short-buffer returns; " +
 			"(c) the redirect writes exactly buf[:consumed] to the target first and then starts both copy directions with swapped arguments; (d) every return of the dispatcher that is not behind the handshake reply is dominated by the redirect (or, only when the reader said so, a close), and nothing reachable before the reply writes to the peer's connection; " +
 			"(e) every instruction that can panic and is reachable before authentication is under a recover frame on every call chain, proven in bounds by the compiler, or individually justified with a re-validated structural reason; (f) the first read is preceded by a read deadline that is reset by a defer.",
-		NotDecided: "(a) what the target answers and the byte equality itself; that net/http.ReadRequest and other library code never panic (not followed); liveness of the relay; the dial-failure path (target fault, not a peer input).",
+		NotDecided:  "(a) what the target answers and the byte equality itself; that net/http.ReadRequest and other library code never panic (not followed); liveness of the relay; the dial-failure path (target fault, not a peer input).",
 		Assumptions: []string{"io.ReadFull returns n == len(buf) when err == nil", "the Go compiler's prove pass is sound (a bounds check it removed cannot fail)"},
 	})
 }
